@@ -41,6 +41,7 @@ def run(fb, rep, tier):
     # the exact scores come from the on-demand table: it is only ever observable complete and with its region reserved
     # (shared with C12.1: an installed generator whose bytes ordinary stores may overwrite reports wrong mate distances)
     C12.c1_typestate(fb, rep, 'C13.5')
+    c6_table_is_consulted(fb, rep)
 
 
 def c1_dtm_blocks(fb, rep):
@@ -190,3 +191,72 @@ def c3_extend(fb, rep):
                     all(isinstance(_strip(x_), dict) and _strip(x_).get('k') == 'var' and _strip(x_).get('vk') == 'local' and (_strip(x_).get('t') or '') == 'int' for x_ in (_strip(g_)['l'], _strip(g_)['r']))
                     for g_, sd in gt)
         rep.ob(clause, 'K4 guard', 'extendPV appends only moves that keep the tablebase score (shortest mate)', keeps, R.site(ex, e), 'guards %s' % g, ex.sname)
+
+
+# ----------------------------------------------------------------------------- .6
+
+def c6_table_is_consulted(fb, rep):
+    """K2: building the on-demand table happens inside the search's own time budget (the clock was started before
+    updateTB).  When generation takes longer than the soft limit, the very first poll of the clock - made at the first
+    node, because the poll counter starts at zero - aborts the search, and the move played is the first of the static
+    ordering although exact knowledge has just been built (a won position is thrown away).  So after a successful
+    updateTB() the search must be guaranteed a minimum of work before the first poll: the poll counter is re-armed
+    (or the search clock re-based) on that path."""
+    clause = 'C13.6'
+    it = fb.find1('Search::iterativeDeepening')
+    ns = [f for f in fb.funcs.values() if f.has_cfg and f.sname == 'Search::negaScout']
+    if rep.need(clause, it, 'Search::iterativeDeepening') is None or rep.need(clause, ns, 'Search::negaScout') is None:
+        return
+    # the poll counter: the field whose `<= 0` test guards the call of shouldStop()
+    counters = set()
+    for f in ns:
+        for b, i, e in f.events():
+            if e.get('k') == 'call' and cname(e).split('::')[-1] == 'shouldStop':
+                for c, side in G.guard_trees(f, set(f.blocks), b):
+                    c = _strip(c)
+                    if side and isinstance(c, dict) and c.get('k') == 'bin' and c.get('op') in ('<=', '<') and (ap(_strip(c.get('l'))) or '').startswith('this.'):
+                        counters.add(ap(_strip(c['l'])))
+    if rep.need(clause, counters, 'the poll counter guarding shouldStop() in negaScout') is None:
+        return
+    arms = [(bid, blk) for bid, blk in it.blocks.items() if (blk.get('term') or {}).get('c') == 'IfStmt' and
+            any(n.get('k') == 'call' and cname(n).split('::')[-1] == 'updateTB' for n in walk(eff_cond(blk['term']) or {}))]
+    rep.floor(clause, 'updateTB() tests in iterativeDeepening', len(arms), 1)
+    for bid, blk in arms:
+        t = blk['succ'][0]
+        join = G.ipdom(it, bid)
+        region = G.region(it, t, join)
+        ok = False
+        detail = 'no re-arm of %s and no re-base of the search clock on the success path' % sorted(counters)
+        for b in region:
+            for e in it.blocks[b]['ev']:
+                if e.get('k') == 'asg' and ap(_strip(e.get('l'))) in counters:
+                    r = _strip(e.get('r'))
+                    if not (isinstance(r, dict) and 'cv' in r and r['cv'] <= 0):
+                        ok = True
+                        detail = 'poll counter re-armed: ' + show(e, 80)
+                if e.get('k') == 'asg' and ap(_strip(e.get('l'))) == 'this.tStart':
+                    ok = True
+                    detail = 'search clock re-based: ' + show(e, 80)
+        rep.ob(clause, 'K2 must-pass-through', 'iterativeDeepening: after a successful on-demand generation the search is guaranteed work before the first clock poll', ok,
+               '%s:%s' % (it.file, blk['term'].get('ln')), detail, it.sname)
+        # ... and enough of it to read the exact score off the table: the iteration boundary also compares the elapsed time
+        # (generation included) with the soft limit, so the soft limit is extended by the generation time (bounded by the
+        # hard limit), or the clock is re-based
+        ok2 = False
+        detail2 = 'the soft limit still counts the generation time: the search stops after the first iteration with an inexact score'
+        for b in region:
+            for e in it.blocks[b]['ev']:
+                tgt = val = None
+                if e.get('k') == 'asg':
+                    tgt, val = e.get('l'), e.get('r')
+                elif e.get('k') == 'call' and e.get('op') == '=' and e.get('args'):
+                    tgt, val = e.get('recv'), e['args'][0]
+                if tgt is None:
+                    continue
+                if ap(_strip(tgt)) == 'this.tStart':
+                    ok2, detail2 = True, 'search clock re-based'
+                if ap(_strip(tgt)) == 'this.minTimeMillis' and any(ap(n) == 'this.tStart' for n in walk(val)) and \
+                        any(n.get('k') == 'call' and cname(n) in ('std::min',) or (n.get('k') == 'var' and ap(n) == 'this.maxTimeMillis') or ap(n) == 'this.maxTimeMillis' for n in walk(val)):
+                    ok2, detail2 = True, 'soft limit extended by the elapsed generation time, bounded by the hard limit: ' + show(val, 90)
+        rep.ob(clause, 'K2 must-pass-through', 'iterativeDeepening: the time spent generating the table does not count against the soft limit of the search that follows', ok2,
+               '%s:%s' % (it.file, blk['term'].get('ln')), detail2, it.sname)
